@@ -41,10 +41,11 @@ type c31Case struct {
 	hold        time.Duration // the holder releases this long after Close is called; <0: released before Close
 	snapOnClose bool
 	beyond      bool // holder stays beyond the limit
+	heldBefore  time.Duration // the holder already holds the gate this long when Close is called
 }
 
 func (c c31Case) String() string {
-	return fmt.Sprintf("owner=%s hold=%v snapshot-on-close=%v beyond-limit=%v", c.owner, c.hold, c.snapOnClose, c.beyond)
+	return fmt.Sprintf("owner=%s held-before-close=%v hold=%v snapshot-on-close=%v beyond-limit=%v", c.owner, c.heldBefore, c.hold, c.snapOnClose, c.beyond)
 }
 
 // c31Open runs on worker goroutines, so a broken harness panics instead of t.Fatal.
@@ -65,7 +66,7 @@ func c31Open(t *testing.T) (*Store, func()) {
 func TestVerif_C31(t *testing.T) {
 	r := kit.Start(t, "C31", "close")
 	defer r.Finish()
-	r.Rule("every combination of gate owner {snapshot, backup, check-clean-snapshot} x release offset after the Close call {released before, 1ms, 5ms, 10ms, 15ms, 100ms, 1s, 2.5s} x snapshot-on-close {off, on} on a real single-node Store, plus the gate held beyond the 10 s limit for two owners; distinct = (owner, offset, snapshot-on-close, outcome class)")
+	r.Rule("every combination of gate owner {snapshot, backup, check-clean-snapshot} x release offset after the Close call {released before, 1ms, 5ms, 10ms, 15ms, 100ms, 1s, 2.5s} x snapshot-on-close {off, on} on a real single-node Store, plus the gate held beyond the 10 s limit for two owners, plus a holder already 10.5 s into its work when Close is called (releasing 1.5 s later: Close must wait and succeed; or staying 11.5 s more: Close must give up about 10 s after it was CALLED); distinct = (owner, offset, snapshot-on-close, outcome class)")
 	r.Assume("the rest of Store.Close (snapshot-on-close, raft shutdown, closing SQLite and bbolt) finishes within 5 s on this machine; measured values are in the samples")
 
 	var cases []c31Case
@@ -79,6 +80,11 @@ func TestVerif_C31(t *testing.T) {
 	}
 	cases = append(cases, c31Case{owner: "backup", hold: 11500 * time.Millisecond, beyond: true},
 		c31Case{owner: "snapshot", hold: 11500 * time.Millisecond, snapOnClose: true, beyond: true})
+	// the limit counts from the Close call, not from when the holder took the gate: a holder that is already
+	// 10.5 s into its work when Close is called and finishes 1.5 s later is well inside what Close may wait for
+	cases = append(cases, c31Case{owner: "backup", heldBefore: 10500 * time.Millisecond, hold: 1500 * time.Millisecond},
+		c31Case{owner: "snapshot", heldBefore: 10500 * time.Millisecond, hold: 1500 * time.Millisecond, snapOnClose: true},
+		c31Case{owner: "backup", heldBefore: 10500 * time.Millisecond, hold: 11500 * time.Millisecond, beyond: true})
 
 	var mu sync.Mutex
 	var wg sync.WaitGroup
@@ -93,7 +99,7 @@ func TestVerif_C31(t *testing.T) {
 			mu.Lock()
 			defer mu.Unlock()
 			r.Eval(1)
-			r.Distinct(fmt.Sprintf("%s|%v|%v|%s", c.owner, c.hold, c.snapOnClose, out))
+			r.Distinct(fmt.Sprintf("%s|%v|%v|%v|%s", c.owner, c.heldBefore, c.hold, c.snapOnClose, out))
 			if i%9 == 0 || c.beyond {
 				r.Sample(map[string]any{"case": c.String(), "outcome": out, "close_took_ms": took.Milliseconds(), "after_release_ms": extra.Milliseconds()})
 			}
@@ -108,7 +114,7 @@ func c31Run(t *testing.T, r *kit.Run, c c31Case) (string, time.Duration, time.Du
 	s, done := c31Open(t)
 	defer done()
 	s.NoSnapshotOnClose = !c.snapOnClose
-	replay := map[string]any{"owner": c.owner, "hold_ns": int64(c.hold), "snapshot_on_close": c.snapOnClose, "beyond_limit": c.beyond}
+	replay := map[string]any{"owner": c.owner, "hold_ns": int64(c.hold), "held_before_ns": int64(c.heldBefore), "snapshot_on_close": c.snapOnClose, "beyond_limit": c.beyond}
 
 	if err := s.snapshotCAS.Begin(c.owner); err != nil {
 		panic(fmt.Sprintf("harness: cannot take the gate on a fresh store: %v", err))
@@ -125,6 +131,9 @@ func c31Run(t *testing.T, r *kit.Run, c c31Case) (string, time.Duration, time.Du
 	}
 	if c.hold < 0 {
 		release()
+	}
+	if c.heldBefore > 0 {
+		time.Sleep(c.heldBefore)
 	}
 	start := time.Now()
 	var tm *time.Timer
